@@ -82,6 +82,17 @@ theorem plain_append (a b : Name) : plain (a ++ b) = plain a ++ plain b := by
 def WfLabel (l : Label) : Prop := 1 ≤ l.length ∧ l.length ≤ 63
 def WfName (n : Name) : Prop := ∀ l ∈ n, WfLabel l
 
+/-- every label takes at least two octets, so a name of at most 255 octets has at most 127 labels -/
+theorem wireLen_ge {d : Name} (hd : WfName d) : 2 * d.length + 1 ≤ wireLen d := by
+  induction d with
+  | nil => simp [wireLen]
+  | cons l ls ih =>
+    have hl := hd l (by simp)
+    have := ih (fun x hx => hd x (by simp [hx]))
+    unfold WfLabel at hl
+    simp only [wireLen, List.length_cons]
+    omega
+
 theorem pushLabel_wf {l : Label} (h : WfLabel l) : pushLabel l = some (l.length :: l) := by
   unfold pushLabel WfLabel at *
   have : ¬ (l.length = 0 ∨ l.length ≥ 64) := by omega
@@ -450,7 +461,8 @@ theorem rootOK_root (buf : Bytes) : RootOK buf root := by
 /-- **`push_compressed_domain` is correct**: the name it writes at the end of a buffer decodes
     back to the name (from any continuation of the buffer), the stream continues right after it,
     and the offsets tree stays valid. -/
-theorem pushName_spec (d : Name) (hd : WfName d) (hlen : d.length ≤ limit) (t t' : Tree) (pre bytes : Bytes)
+theorem pushName_spec (d : Name) (hd : WfName d) (hlen : d.length ≤ limit) (hw : wireLen d ≤ Generated.Dns.nameOctetLimit)
+    (t t' : Tree) (pre bytes : Bytes)
     (h : pushName d t pre.length = some (bytes, t')) (ht : RootOK pre t)
     (hsz : pre.length + bytes.length < 65536) :
     (∀ post, getDomain (pre ++ bytes ++ post) pre.length = .ok (d, pre.length + bytes.length)) ∧
@@ -463,7 +475,7 @@ theorem pushName_spec (d : Name) (hd : WfName d) (hlen : d.length ≤ limit) (t 
     subst hd0
     refine ⟨?_, ht.append _⟩
     intro post
-    apply getDomain_of_dec (k := 0) _ (by simp)
+    apply getDomain_of_dec (k := 0) _ (by simp) (by simp [wireLen]; decide)
     have : (pre ++ [0] ++ post)[pre.length]? = some 0 := by simp
     simpa using Dec.zero this 0 (Nat.zero_le _)
   · simp only [hemp, Bool.false_eq_true, if_false] at h
@@ -484,7 +496,7 @@ theorem pushName_spec (d : Name) (hd : WfName d) (hlen : d.length ≤ limit) (t 
         intro post
         have := hdec post
         simp only [List.reverse_reverse, List.append_nil] at this
-        exact getDomain_of_dec this hlen
+        exact getDomain_of_dec this hlen hw
       | some r =>
         simp only [Option.some.injEq, Prod.mk.injEq] at h
         obtain ⟨rfl, rfl⟩ := h
@@ -508,7 +520,7 @@ theorem pushName_spec (d : Name) (hd : WfName d) (hlen : d.length ≤ limit) (t 
           have hB : pre ++ (plain d ++ [0]) ++ post = pre ++ plain d ++ ([0] ++ post) := by simp
           have ho : pre.length + (plain d ++ [0]).length = pre.length + (plain d).length + 1 := by simp; omega
           rw [hB, ho]
-          exact getDomain_of_dec this hlen
+          exact getDomain_of_dec this hlen hw
         · intro c hc
           simp only [Option.getD_some, Tree.withChildren_children] at hc
           rcases List.mem_append.mp hc with hold | hnew
